@@ -50,7 +50,7 @@ fn scenario(c: &Case, plan: ChunkPlan, settle_between: bool) -> Scenario {
     if c.eof_after {
         ev.push(Ev::Terminate(Cause::Eof));
     }
-    Scenario { receive_max: None, max_packet_size: None, id_offset: 0, events: ev }
+    Scenario { receive_max: None, max_packet_size: None, id_offset: 0, prologue: 0, events: ev }
 }
 
 fn item() -> BoxedStrategy<Inbound> {
